@@ -56,3 +56,12 @@ Proof. vm_compute. reflexivity. Qed.
 (** every driver step on every term of [pool1] respects the measure *)
 Example pool1_ok : failures 200 pool1 = [].
 Proof. vm_compute. reflexivity. Qed.
+
+(** Larger runs done once with the same definitions (scratch file, [vm_compute], not part of the build):
+    - depth 2: [ops1 p1s ++ ops2 p1s pool0 ++ ops2 pool0 p1s] with
+      [p1s := ops1 syms ++ ops2 syms pool0 ++ ops2 lits syms ++ ops3 syms pool0 pool0]:
+      625,380 well-typed terms, no failure;
+    - depth 3 (every 5000th depth-2 term combined pairwise by all binary operators and ite, and all
+      unary operators / slices over every 50th depth-2 term): 88,923 + 193,309 terms, no failure.
+    Since then the decrease is proved for every rule ([SimplifyTermRules3.simplify_decreases]); the
+    computation was how the measure was found, and remains as a regression test of [mu]/[chk]. *)
